@@ -392,6 +392,9 @@ def spec (line ans : String) : String :=
   | ["compile"] =>
     if ans == "ok" then "holds"
     else if ans.startsWith "newfile-error" then "fails runtime-rejects-file " ++ ans
+    -- the first observation of the compiled descriptors is made by several goroutines at once: every one
+    -- of them must see what a lone caller sees
+    else if ans.startsWith "conc-differs" then "fails concurrent-observation-differs " ++ ans
     else "skip"
   | kind :: name :: rest =>
     if kind == "src" || kind == "camel" || kind == "dflt" then "skip" else
